@@ -61,15 +61,16 @@ def _construct(case, order, real_sites=False):
     return cls(Ls, [site] * Lu, **kw)
 
 
-def build_real(case):
-    """Construct the tenpy object described by the case."""
+def build_real(case, real_sites=False):
+    """Construct the tenpy object described by the case (unit cell of `None` placeholders unless real_sites)."""
     from tenpy.models import lattice as la
     spec = case['order']
     var = case.get('variant') or {}
-    helical = 'helical' in var or 'helical_enlarge' in var
+    helical = real_sites or 'helical' in var or 'helical_enlarge' in var
+    site = _site() if real_sites else None
     if 'multi' in var:
-        simple = _construct(case, 'default')
-        lat = la.MultiSpeciesLattice(simple, [None] * var['multi'])
+        simple = _construct(case, 'default', real_sites=real_sites)
+        lat = la.MultiSpeciesLattice(simple, [site] * var['multi'])
         if spec != {'name': 'default'}:
             lat.order = lat.ordering(order_arg(spec))
         return lat
@@ -90,7 +91,7 @@ def build_real(case):
             add = (np.array(add[0], dtype=np.intp).reshape(len(add[0]), len(case['Ls']) + 1),
                    [None if m is None else (m[0] / m[1] if m[1] != 1 else m[0]) for m in add[1]])
         k = ir.get('n_add_uc', 0)
-        return la.IrregularLattice(lat, remove=ir.get('remove'), add=add, add_unit_cell=[None] * k,
+        return la.IrregularLattice(lat, remove=ir.get('remove'), add=add, add_unit_cell=[site] * k,
                                    add_positions=np.zeros((k, lat.unit_cell_positions.shape[1])))
     if 'helical' in var:
         return la.HelicalLattice(lat, var['helical'])
@@ -255,6 +256,7 @@ class Geometry:
         self.sites, self.Ls, self.Lu = expected_sites(case)
         self.open, self.shift = bc_of(case)
         self.finite = case['bc_MPS'] == 'finite'
+        self.regular = 'irregular' not in var
         self.D = len(self.Ls)
         if self.helical:
             # the numbering is the one of the (possibly enlarged) regular lattice, C-style up to the unit cell
@@ -338,6 +340,7 @@ class Geometry:
                 else:
                     res.append(self.normalize((i, j + k0 * self.N)))
         if self.helical:
+            self.last_full = sorted(res)   # the family of the regular lattice, 0 <= min < N_reg
             res = [p for p in res if min(p) < self.N_hel]
         return sorted(res)
 
@@ -493,10 +496,29 @@ def oracle_couplings(geo, lat, u1, u2, dx):
         extra = sorted(set(got) - set(want))
         kind = 'missing-pair' if miss and not extra else 'extra-pair' if extra and not miss else 'wrong-pairs'
         return f'possible_couplings.{kind}', f'u1={u1} u2={u2} dx={dx}: missing {miss[:4]} extra {extra[:4]}'
+    if geo.helical:
+        # the helix is translation invariant by its own (smaller) unit cell: the couplings of the regular
+        # lattice are exactly the translates of the listed ones
+        reps = geo.N // geo.N_hel
+        full = sorted((i + m * geo.N_hel, j + m * geo.N_hel) for i, j in got for m in range(reps))
+        if full != geo.last_full:
+            return 'helical.couplings-not-invariant-under-translation-by-N_sites', f'u1={u1} u2={u2} dx={dx}'
     if not geo.finite:
         for p in got:
             if not (0 <= min(p) < (geo.N_hel if geo.helical else geo.N)):
                 return 'possible_couplings.unit-cell-assignment', f'{p}'
+    # coupling_shape / lat_indices: the strength array has exactly one entry per coupling (regular lattices)
+    sh = _ints(sh)
+    rows = _rows(li, geo.D) if len(got) else []
+    if any(not (0 <= x < s) for r in rows for x, s in zip(r, sh)):
+        return 'coupling_shape.lat_indices-outside-shape', f'u1={u1} u2={u2} dx={dx}: shape {sh} rows {rows[:4]}'
+    if geo.regular and not geo.helical:
+        n = 1
+        for s_ in sh:
+            n *= max(s_, 0)
+        if len(set(map(tuple, rows))) != len(rows) or len(rows) != n:
+            return 'coupling_shape.not-one-entry-per-coupling', \
+                f'u1={u1} u2={u2} dx={dx}: shape {sh}, {len(rows)} couplings, {len(set(map(tuple, rows)))} distinct lat_indices'
     return None
 
 
@@ -510,6 +532,10 @@ def oracle_multi(geo, lat, ops):
         ijkl = []
     got = sorted(tuple(r) for r in _rows(ijkl, len(ops))) if len(ijkl) else []
     want = geo.multi_bruteforce(ops)
+    if len(ijkl):
+        rows, shp = _rows(li, geo.D), _ints(sh)
+        if any(not (0 <= x < s) for r in rows for x, s in zip(r, shp)) or len(set(map(tuple, rows))) != len(rows):
+            return 'multi_coupling_shape.lat_indices-not-distinct-in-shape', f'ops={ops}: shape {shp} rows {rows[:4]}'
     if got != want:
         if len(set(got)) != len(got):
             return 'possible_multi_couplings.duplicate-row', f'{got[:6]}'
@@ -517,4 +543,34 @@ def oracle_multi(geo, lat, ops):
         extra = sorted(set(got) - set(want))
         kind = 'missing-row' if miss and not extra else 'extra-row' if extra and not miss else 'wrong-rows'
         return f'possible_multi_couplings.{kind}', f'ops={ops}: missing {miss[:4]} extra {extra[:4]}'
+    return None
+
+
+def oracle_model_coupling(case, geo, u1, u2, dx):
+    """The consumer in tenpy/models/model.py: CouplingModel.add_coupling(1, u1, 'Sz', u2, 'Sz', dx) must create
+    exactly one term per brute-force pair (terms are stored with i < j; coinciding unordered pairs add up)."""
+    from collections import Counter
+    from tenpy.models.model import CouplingModel
+    if all(d == 0 for d in dx) and u1 == u2:
+        return None
+    want = geo.pairs_bruteforce(u1, u2, dx)
+    if any(i == j for i, j in want):
+        return None  # a site coupled to itself through the boundary: add_coupling does not support it
+    if not hasattr(geo, 'model_lat'):
+        geo.model_lat = build_real(case, real_sites=True)
+    M = CouplingModel(geo.model_lat)
+    M.add_coupling(1.0, u1, 'Sz', u2, 'Sz', np.array(dx, dtype=np.int64))
+    got = Counter()
+    ct = M.coupling_terms.get('Sz_i Sz_j')
+    if ct is not None:
+        tl = ct.to_TermList()
+        for term, st in zip(tl.terms, tl.strength):
+            (_, i), (_, j) = term
+            got[(int(i), int(j))] += int(round(float(np.real(st))))
+            if abs(float(np.real(st)) - round(float(np.real(st)))) > 1e-12:
+                return 'add_coupling.non-integer-strength', f'{term} {st}'
+    exp = Counter((min(p), max(p)) for p in want)
+    if got != exp:
+        return 'add_coupling.terms-differ-from-bruteforce', \
+            f'u1={u1} u2={u2} dx={dx}: got {sorted(got.items())[:5]} expected {sorted(exp.items())[:5]}'
     return None
